@@ -70,6 +70,7 @@ cjet_ssize_t socket_writev_with_prefix(socket_type sock, void *buf, size_t len, 
    rpos = stream position of the next byte the kernel delivers; the byte at stream position RTRACK is remembered. */
 static size_t rpos, RTRACK; static uint8_t rbyte; static int rbyte_known; static int reads;
 static int read_forbidden;
+static int last_read_mode = -1;   /* what the kernel answered to the latest read: 0 would-block, 1 hard error, 2 FIN, 3 data */
 cjet_ssize_t socket_read(socket_type sock, void *buf, size_t count)
 {
 	(void)sock;
@@ -77,6 +78,7 @@ cjet_ssize_t socket_read(socket_type sock, void *buf, size_t count)
 	CHECK(count >= 1, "C09.read_request_nonempty");
 	reads++;
 	int mode = (int)nd_range(0, 3);
+	last_read_mode = mode;
 	if (mode == 0) { sock_errno = EAGAIN; return -1; }
 	if (mode == 1) { sock_errno = ECONNRESET; return -1; }
 	if (mode == 2) return 0;
@@ -247,6 +249,11 @@ void harness_read_exactly(void)
 		CHECK(unread_bytes(bs) == rpos, "C09.no_byte_lost_or_duplicated");
 		if (RTRACK < rpos) CHECK(rbyte_known && bs->read_ptr[RTRACK] == rbyte, "C09.unread_bytes_kept_in_order");
 		CHECK(unread_bytes(bs) < count, "C09.blocks_only_when_short");
+		/* edge-triggered loop: the reader goes back to waiting only after the kernel itself answered would-block
+		   (a short read is not the end of the data), and reports FIN / error only when the kernel did */
+		if (r == BS_IO_WOULD_BLOCK) CHECK(reads >= 1 && last_read_mode == 0, "C09.waits_only_after_socket_drained");
+		if (r == BS_PEER_CLOSED) CHECK(last_read_mode == 2, "C09.peer_closed_only_on_fin");
+		if (r == BS_IO_ERROR) CHECK(last_read_mode == 1, "C09.error_only_on_socket_error");
 		if (r == BS_IO_WOULD_BLOCK && reads > 1) REACH("partial_then_block");
 	}
 	WITNESS_END();
@@ -283,6 +290,9 @@ void harness_read_until(void)
 		if (r == BS_IO_WOULD_BLOCK || r == BS_IO_TOOMUCHDATA)
 			CHECK(jet_memmem(bs->read_ptr, unread_bytes(bs), delim, 2) == 0, "C09.complete_line_is_delivered_not_left_in_buffer");
 		if (r == BS_IO_TOOMUCHDATA) { CHECK(unread_bytes(bs) == M, "C09.too_much_data_only_when_buffer_full_without_delimiter"); REACH("line_too_long"); }
+		if (r == BS_IO_WOULD_BLOCK) CHECK(reads >= 1 && last_read_mode == 0, "C09.waits_only_after_socket_drained");
+		if (r == BS_PEER_CLOSED) CHECK(last_read_mode == 2, "C09.peer_closed_only_on_fin");
+		if (r == BS_IO_ERROR) CHECK(last_read_mode == 1, "C09.error_only_on_socket_error");
 	}
 	WITNESS_END();
 }
